@@ -4,6 +4,7 @@ from __future__ import annotations
 
 import json
 import os
+import re
 import shutil
 import subprocess
 import sys
@@ -47,7 +48,7 @@ NAMES = ["alpha", "beta", "gamma", "delta", "eps", "zeta", "eta", "theta"]
 @st.composite
 def template_program(draw, kinds=None):
     kind = draw(st.sampled_from(kinds)) if kinds else draw(st.sampled_from(["kwargs", "percent-keys", "or-union", "merge-union", "typeddict", "protocol", "in-union",
-                                 "set-literal", "format-keys", "dict-union", "generic-protocol", "generic-protocol", "collect", "collect", "global-rebind", "use-builtin"]))
+                                 "set-literal", "format-keys", "dict-union", "generic-protocol", "generic-protocol", "collect", "collect", "global-rebind", "use-builtin", "shared-generic"]))
     names = draw(st.lists(st.sampled_from(NAMES), min_size=3, max_size=6, unique=True))
     head = "from typing import *\nfrom typing_extensions import *\n"
     if kind == "generic-protocol":
@@ -57,6 +58,13 @@ def template_program(draw, kinds=None):
         t = draw(st.sampled_from(["int", "str", "float", "bytes"]))
         u = draw(st.sampled_from(["int", "str", "float", "list[int]", "list[str]"]))
         return head + f"def want(x: {proto}[{t}]) -> None: ...\ndef g(i: {u}):\n    want(i)\n"
+    if kind == "shared-generic":
+        # generic typeshed functions whose parameters are structural protocols over a shared type variable
+        # (divmod: SupportsDivMod[T, R] and T; max / sorted: SupportsRichComparison): verdicts cached per
+        # protocol must not pick up bounds from earlier calls
+        ts = draw(st.lists(st.sampled_from(["int", "bool", "float", "str", "bytes", "list[int]"]), min_size=2, max_size=2))
+        return head + (f"def g(a: {ts[0]}, b: {ts[1]}):\n    reveal_type(divmod(a, b))\n    reveal_type(max(a, b))\n"
+                       f"    reveal_type(sorted([a, b]))\n    reveal_type(abs(a))\n    reveal_type(round(a, 1))\n")
     if kind in ("global-rebind", "use-builtin"):
         # state that must not outlive a check: a function that rebinds a global / builtin name through
         # `global`, and programs whose diagnostics mention builtins
@@ -259,7 +267,13 @@ def make_machine(pool, col, found):
                 diff_b = [x for x in (got or []) if x not in (baseline or [])]
                 a = diff_a[0] if diff_a else ["", 0, 0, ""]
                 b = diff_b[0] if diff_b else ["", 0, 0, ""]
-                failure = {"key": f"history|{a[0] or b[0]}|{skeleton(a[3] or b[3])}",
+                strip = lambda r: [[x[0], x[1], x[2], re.sub(r" \(Protocol with members [^)]*\)", "", x[3])] for x in (r or [])]
+                key = f"history|{a[0] or b[0]}|{skeleton(a[3] or b[3])}"
+                if strip(got) == strip(baseline):
+                    # the only difference: `X (Protocol with members ...)` printed or not (TypedValue.__str__
+                    # reads a lazily filled per-instance cache)
+                    key = "history|protocol-members-suffix-depends-on-earlier-checks"
+                failure = {"key": key,
                            "what": f"after history of {len(self.history) - 1} other checks the render differs from the render in a fresh process: "
                                    f"{first_line(a[3])!r} vs {first_line(b[3])!r}",
                            "case": {"history": [pool[j][0] for j in self.history]}}
@@ -302,8 +316,8 @@ def run_shard(spec):
     @hypothesis.seed(seed)
     @runner.hyp_settings(8, shrink=False)
     @given(st.lists(program_strategy(), min_size=9, max_size=9),
-           st.lists(template_program(kinds=["global-rebind", "use-builtin", "generic-protocol", "use-builtin", "global-rebind"]),
-                    min_size=4, max_size=4))
+           st.lists(template_program(kinds=["global-rebind", "use-builtin", "generic-protocol", "shared-generic", "shared-generic"]),
+                    min_size=5, max_size=5))
     def draw_pool(ps, probes):
         # every pool holds a few programs that write or read state shared between checks
         pool_holder.append(list(ps) + list(probes))
@@ -343,7 +357,7 @@ def replay_all(case):
         checker = sut.new_checker()
         srcs = case["history"]
         last = srcs[-1]
-        baseline = fresh_render(last)
+        baseline = isolated_renders([last])[0]
         got = None
         for s in srcs:
             res = sut.check_source(s, checker=checker)
@@ -353,7 +367,11 @@ def replay_all(case):
             diff_b = [x for x in (got or []) if x not in (baseline or [])]
             a = diff_a[0] if diff_a else ["", 0, 0, ""]
             b = diff_b[0] if diff_b else ["", 0, 0, ""]
-            return [{"key": f"history|{a[0] or b[0]}|{skeleton(a[3] or b[3])}", "what": f"{first_line(a[3])!r} vs {first_line(b[3])!r}", "case": case}]
+            strip = lambda r: [[x[0], x[1], x[2], re.sub(r" \(Protocol with members [^)]*\)", "", x[3])] for x in (r or [])]
+            key = f"history|{a[0] or b[0]}|{skeleton(a[3] or b[3])}"
+            if strip(got) == strip(baseline):
+                key = "history|protocol-members-suffix-depends-on-earlier-checks"
+            return [{"key": key, "what": f"{first_line(a[3])!r} vs {first_line(b[3])!r}", "case": case}]
         return []
     results = run_children([case["src"]], list(range(int(case.get("seeds", 6)) + 1)))
     return [{"key": k, "what": w, "case": case} for k, w, _ in compare_children([case["src"]], results)]
